@@ -261,6 +261,32 @@ seed("C18", "builder-retains-frame", "builder keeps a reference to the last fram
 seed("C18", "magic-changed", "file magic changed", ["C18.W5"],
      (TR, 'thermalRawMagic        = "CPTR"', 'thermalRawMagic        = "CPTX"'))
 
+LD = "cmd/leptond/main.go"
+HI = "headers/headerinfo.go"
+# ---- C14
+seed("C14", "marker-differs", "leptond sends a different marker", ["C14.M1"],
+     (LD, 'clearBuffer    = "clear"', 'clearBuffer    = "reset"'))
+seed("C14", "probe-too-short", "probe reads 4 bytes", ["C14.M2"],
+     (MAIN, "_, err := io.ReadFull(reader, rawFrame[:5])", "_, err := io.ReadFull(reader, rawFrame[:4])"))
+seed("C14", "remainder-overlaps", "remainder read from offset 4", ["C14.M2"],
+     (MAIN, "_, err = io.ReadFull(reader, rawFrame[5:])", "_, err = io.ReadFull(reader, rawFrame[4:])"))
+seed("C14", "second-buffered-reader", "frames read through a second bufio.Reader", ["C14.M3"],
+     (MAIN, "\trawFrame := make([]byte, headerInfo.FrameSize())\n", "\trawFrame := make([]byte, headerInfo.FrameSize())\n\treader = bufio.NewReader(conn)\n"))
+seed("C14", "fps-key-dropped", "leptond no longer sends FPS", ["C14.M5"],
+     (LD, "\t\theaders.FPS:         camera.FPS(),\n", ""))
+seed("C14", "marker-not-resetting", "marker consumed without resetting the processor", ["C14.M2"],
+     (MAIN, "\t\t\tprocessor.Reset(headerInfo)\n\t\t\tcontinue", "\t\t\tcontinue"))
+seed("C14", "marker-falls-through", "after the marker the loop reads the rest of a frame", ["C14.M2"],
+     (MAIN, "\t\t\tprocessor.Reset(headerInfo)\n\t\t\tcontinue", "\t\t\tprocessor.Reset(headerInfo)"))
+seed("C14", "header-eof-tolerated", "truncated header yields a partial description", ["C14.M4"],
+     (HI, "\t\tif err != nil {\n\t\t\treturn nil, err\n\t\t}\n\t\tif strings.Trim", "\t\tif err != nil {\n\t\t\tbreak\n\t\t}\n\t\tif strings.Trim"))
+seed("C14", "framesize-written-as-string", "frame size sent as a string", ["C14.M5"],
+     (LD, "headers.FrameSize:   lepton3.BytesPerFrame,", 'headers.FrameSize:   fmt.Sprint(lepton3.BytesPerFrame),'))
+seed("C14", "short-read-ignored", "short frame read ignored", ["C14.M2"],
+     (MAIN, "\t\t_, err = io.ReadFull(reader, rawFrame[5:])\n\t\tif err != nil {\n\t\t\treturn err\n\t\t}", "\t\t_, err = io.ReadFull(reader, rawFrame[5:])\n\t\tif err != nil {\n\t\t\tlog.Print(err)\n\t\t}"))
+seed("C14", "marker-mid-loop", "marker also written inside the frame loop on service reset", ["C14.M6", "C14.M1"],
+     (LD, '\t\t\tlog.Println("reset triggered through service")\n', '\t\t\tlog.Println("reset triggered through service")\n\t\t\tconn.Write([]byte(clearBuffer))\n'))
+
 here = os.path.dirname(os.path.abspath(__file__))
 for pid, name, d in S:
     os.makedirs(os.path.join(here, pid), exist_ok=True)
